@@ -395,6 +395,7 @@ def check_long(cx):
         # >= 37 significant bits): the conditional distribution is still a ratio of representable numbers
         # (strengthened after seeded change C04-9: 1/Z overflows there)
         from genlm.grammar.parse import earley as earley_plain, cky as cky_plain
+        OB_SUB = "C04/lm.LM.p_next/subnormal-prefix-weight"
         ks = []
         for k in range(max(1, n - 14), max(2, n - 8)):       # right_linear, n = 115: the window is k = 103
             nwk, _ = lmspec.next_weights(Q, ge, x[:k])
@@ -409,7 +410,13 @@ def check_long(cx):
                 st, p = call(lm2.p_next, x[:k])
                 out["n"] += 1
                 if st != "ok":
-XX, qname, dict(token=tok, length=k, prefix_weight=float(pwk)), pv, exp)
+                    cx.viol(OB_SUB, "raised: " + p.split(":")[0], qname, dict(token=tok, length=k), p, "a distribution")
+                    continue
+                pv = {t: _f(v) for t, v in p.items()}
+                exp = {t: _f(nwk[t] / pwk) for t in Ve}
+                s = math.fsum(pv.values())
+                if not num_close(s, 1, rel=1e-6, abs_=0) or any(not num_close(pv.get(t, 0.0), exp[t], rel=1e-6, abs_=1e-12) for t in Ve):
+                    cx.viol(OB_SUB, "wrong-value: subnormal prefix weight", qname, dict(token=tok, length=k, prefix_weight=float(pwk)), pv, exp)
 
 
 def check_deep(cx):
